@@ -370,6 +370,15 @@ fn largest_square_less_than(delta: usize) -> usize {
     (delta as f64).sqrt().floor() as usize
 }
 
+// Legendre's three-square theorem: a natural number is a sum of three squares if and only
+// if it is not of the form 4^a * (8 * b + 7)
+fn is_sum_of_three_squares(mut n: usize) -> bool {
+    while n != 0 && n % 4 == 0 {
+        n /= 4;
+    }
+    n % 8 != 7
+}
+
 //Express the natural number `delta` as a sum of four integer squares,
 // i.e `delta = a^2 + b^2 + c^2 + d^2` using Lagrange's four-square theorem
 pub fn four_squares(delta: i64) -> ClResult<HashMap<String, BigNumber>> {
@@ -392,6 +401,12 @@ pub fn four_squares(delta: i64) -> ClResult<HashMap<String, BigNumber>> {
             roots[2] = 0;
             roots[3] = 0;
             break 'outer;
+        }
+        // Nothing can be found below for this root: skip the (quadratic) search instead of
+        // exhausting it. The result is unchanged; the running time for deltas such as
+        // 2 * 4^k drops from hours (delta = 2^31) to microseconds.
+        if !is_sum_of_three_squares(d - roots[0].pow(2)) {
+            continue;
         }
         roots[1] = largest_square_less_than(d - roots[0].pow(2));
         for j in (1..=roots[1]).rev() {
